@@ -55,6 +55,20 @@ def _canon_atom(e: ast.AST) -> Tuple[str, bool]:
         if isinstance(op, ast.LtE):
             return f"{rt} < {lt}", False
         if isinstance(op, (ast.Eq, ast.NotEq)):
+            # prefix tests: x[:1] == '/'  /  x[0:1] == '/'  /  x[0] == '/'  /  x.find('/') == 0  /  x[:len(c)] == c
+            # all say x.startswith('/') (x[0] differs only by raising on the empty string)
+            for x, y in ((l, r), (r, l)):
+                pre = None
+                if isinstance(y, ast.Constant) and isinstance(y.value, str) and len(y.value) >= 1 and isinstance(x, ast.Subscript):
+                    sl = x.slice
+                    if isinstance(sl, ast.Slice) and sl.step is None and (sl.lower is None or (isinstance(sl.lower, ast.Constant) and sl.lower.value == 0)) and isinstance(sl.upper, ast.Constant) and sl.upper.value == len(y.value):
+                        pre = (x.value, y)
+                    elif isinstance(sl, ast.Constant) and sl.value == 0 and len(y.value) == 1:
+                        pre = (x.value, y)
+                if isinstance(y, ast.Constant) and y.value == 0 and not isinstance(y.value, bool) and isinstance(x, ast.Call) and isinstance(x.func, ast.Attribute) and x.func.attr == "find" and len(x.args) == 1 and isinstance(x.args[0], ast.Constant) and isinstance(x.args[0].value, str):
+                    pre = (x.func.value, x.args[0])
+                if pre is not None:
+                    return f"bool({ast.unparse(pre[0])}.startswith({ast.unparse(pre[1])}))", isinstance(op, ast.Eq)
             if isinstance(r, ast.Constant) and r.value is None:
                 return f"{lt} is None", isinstance(op, ast.Eq)
             if isinstance(l, ast.Constant) and l.value is None:
@@ -66,6 +80,12 @@ def _canon_atom(e: ast.AST) -> Tuple[str, bool]:
                     return f"bool({ast.unparse(x.args[0])})", not isinstance(op, ast.Eq)
             return f"{a} == {b}", isinstance(op, ast.Eq)
         if isinstance(op, (ast.Is, ast.IsNot)):
+            # two named constants of one class (enum members: `Kind.LEAF is Kind.BRANCH`) are the same object exactly
+            # when they are the same name
+            def _member(x_):
+                return isinstance(x_, ast.Attribute) and isinstance(x_.value, ast.Name) and x_.value.id not in ("self", "cls") and x_.attr.isupper()
+            if _member(l) and _member(r) and l.value.id == r.value.id:
+                return "True", (l.attr == r.attr) == isinstance(op, ast.Is)
             # identity is symmetric: a constant operand (None / True / False) goes to the right
             if isinstance(l, ast.Constant) and not isinstance(r, ast.Constant):
                 lt, rt = rt, lt
@@ -174,6 +194,15 @@ def cond_of(e: ast.AST, expand: Optional[Callable[[ast.AST], ast.AST]] = None) -
             return eq if isinstance(e.ops[0], (ast.Eq, ast.Is)) else Cond("not", [eq])
     if isinstance(e, ast.Call) and isinstance(e.func, ast.Name) and e.func.id == "bool" and len(e.args) == 1 and isinstance(e.args[0], (ast.BoolOp, ast.UnaryOp, ast.Compare)):
         return cond_of(e.args[0], None)
+    # the last element as a slice of length 0 or 1:  x[-1:] == [y]   <=>   x and x[-1] == y
+    if isinstance(e, ast.Compare) and len(e.ops) == 1 and isinstance(e.ops[0], (ast.Eq, ast.NotEq)):
+        for x, y in ((e.left, e.comparators[0]), (e.comparators[0], e.left)):
+            if (isinstance(x, ast.Subscript) and isinstance(x.slice, ast.Slice) and x.slice.upper is None and x.slice.step is None
+                    and isinstance(x.slice.lower, ast.UnaryOp) and isinstance(x.slice.lower.op, ast.USub) and isinstance(x.slice.lower.operand, ast.Constant) and x.slice.lower.operand.value == 1
+                    and isinstance(y, (ast.List, ast.Tuple)) and len(y.elts) == 1):
+                last = ast.Subscript(value=x.value, slice=ast.UnaryOp(op=ast.USub(), operand=ast.Constant(value=1)), ctx=ast.Load())
+                both = Cond("and", [cond_of(x.value, None), cond_of(ast.Compare(left=last, ops=[ast.Eq()], comparators=[y.elts[0]]), None)])
+                return both if isinstance(e.ops[0], ast.Eq) else Cond("not", [both])
     a, pol = canon_atom(e)
     return Cond("atom", atom=a, pol=pol)
 
